@@ -77,7 +77,12 @@ func (p *Pubcomp) Unpack(r io.Reader) error {
 		if !ValidateCode(PUBCOMP, p.Code) {
 			return codes.ErrProtocol
 		}
-		return p.Properties.Unpack(bufr, PUBCOMP)
+		if err := p.Properties.Unpack(bufr, PUBCOMP); err != nil {
+			return err
+		}
+	}
+	if bufr.Len() != 0 { // bytes left over inside the remaining length
+		return codes.ErrMalformed
 	}
 	return nil
 }
